@@ -124,13 +124,15 @@ AffTests(val, n, g) ==
 
 \* "yes": linear (antilinear for the test function in complex mode) on every sample;
 \* "no": some identity definitely fails; "unknown": an involved value is undefined.
-\* kind of a "no": "affine" (non-zero constant part, linear rest) or "nonlinear".
+\* kind of a "no": "affine" (non-zero constant part, linear rest on every sample), "nonlinear"
+\* (an identity of the affine tests definitely fails), "unknown" (undefined values in them).
 SemClass(val, n) ==
   LET R == UNION {LinTests(val, n, g) : g \in Groups}
       cls == IF "fail" \in R THEN "no" ELSE IF "undef" \in R THEN "unknown" ELSE "yes" IN
   [cls |-> cls,
    kind |-> IF cls # "no" THEN "-"
-            ELSE IF UNION {AffTests(val, n, g) : g \in Groups} = {"ok"} THEN "affine" ELSE "nonlinear"]
+            ELSE LET A == UNION {AffTests(val, n, g) : g \in Groups} IN
+                 IF "fail" \in A THEN "nonlinear" ELSE IF "undef" \in A THEN "unknown" ELSE "affine"]
 SemOf(val) == [n \in 1..NArgs |-> SemClass(val, n - 1)]
 
 -----------------------------------------------------------------------------
